@@ -17,8 +17,10 @@ import (
 
 	"elaverif/extract/ex"
 
+	"github.com/elastos/Elastos.ELA/common"
 	"github.com/elastos/Elastos.ELA/core/types"
 	dmsg "github.com/elastos/Elastos.ELA/dpos/p2p/msg"
+	"github.com/elastos/Elastos.ELA/elanet/pact"
 	"github.com/elastos/Elastos.ELA/p2p"
 	"github.com/elastos/Elastos.ELA/p2p/msg"
 )
@@ -302,6 +304,14 @@ func main() {
 	ex.DefNat("cmdOffset", p2p.CMDOffset)
 	ex.DefNat("checksumSize", p2p.ChecksumSize)
 	ex.DefNat("maxMessagePayload", p2p.MaxMessagePayload)
+	// limits used by the fixed-layout decoders modelled in Model/P2PMsg.lean
+	ex.DefNat("crProposalVersion", pact.CRProposalVersion)
+	ex.DefNat("maxInvPerMsg", msg.MaxInvPerMsg)
+	ex.DefNat("maxBlockLocatorsPerMsg", msg.MaxBlockLocatorsPerMsg)
+	ex.DefNat("maxAddrPerMsg", msg.MaxAddrPerMsg)
+	ex.DefNat("maxFilterAddDataSize", msg.MaxFilterAddDataSize)
+	ex.DefNat("maxTxFilterLoadDataSize", msg.MaxTxFilterLoadDataSize)
+	ex.DefNat("maxVarStringLength", common.MaxVarStringLength)
 	fmt.Println()
 	emitSwitch("p2pPeer", "p2p/peer/peer.go", "Peer.createMessage", "p2p/peer")
 	emitSwitch("elanetServer", "elanet/server.go", "createMessage", "elanet")
